@@ -274,6 +274,9 @@ func judgeTrace(l *layout, evs []sysEvent, src string) (found []straceFinding, p
 	cell := -1
 	realRoot := l.root
 
+	// the configured sandbox path may itself be a link (or run through one): a no-follow syscall on a path that is
+	// clamped to the root then names that link. It is the root, not something outside it -- unless the call removes or renames it.
+	cfgRoot, _ := m.resolve(strings.TrimSuffix(l.setting, "/"), false)
 	inArena := func(p string) bool { return within(p, l.top) }
 	allowed := func(p string) bool { return within(p, realRoot) || within(p, l.home) || p == src }
 
@@ -362,6 +365,11 @@ func judgeTrace(l *layout, evs []sysEvent, src string) (found []straceFinding, p
 
 			if ok && e.name == "chdir" {
 				m.cwd = res
+			}
+
+			destructive := strings.HasPrefix(e.name, "unlink") || strings.HasPrefix(e.name, "rename") || e.name == "rmdir" || strings.HasPrefix(e.name, "symlink") || strings.HasPrefix(e.name, "link")
+			if res == cfgRoot && !destructive {
+				res = realRoot
 			}
 
 			if !inArena(res) || allowed(res) {
